@@ -45,13 +45,16 @@ Definition drp_wexit (p : dph) : bool := match p with DNone | DSig | DWaitW => f
 Definition drp_jobfree (p : dph) : bool :=
   match p with DNone | DSig | DWaitW | DWrite => false | _ => true end.
 Definition drp_fclosed (p : dph) : bool :=
-  match p with DWaitF | DFlushMt | DStopC | DWaitC | DDo | DRestart => true | _ => false end.
+  match p with DWaitF | DView | DFlushMt | DStopC | DWaitC | DDo | DRestart => true | _ => false end.
 Definition drp_fexit (p : dph) : bool :=
-  match p with DFlushMt | DStopC | DWaitC | DDo | DRestart => true | _ => false end.
+  match p with DView | DFlushMt | DStopC | DWaitC | DDo | DRestart => true | _ => false end.
 Definition drp_csig (p : dph) : bool :=
   match p with DWaitC | DDo | DRestart => true | _ => false end.
 Definition drp_allexit (p : dph) : bool :=
   match p with DDo | DRestart => true | _ => false end.
+
+Definition drp_pastdrain (p : dph) : bool :=
+  match p with DNone | DSig | DWaitW | DDrain _ => false | _ => true end.
 
 Definition w_running (x : wst) : bool := match x with WIdle | WCollect _ => true | _ => false end.
 Definition w_past_default (x : wst) : bool := match x with WTok _ | WFinal | WExited => true | _ => false end.
@@ -92,6 +95,8 @@ Record inv (c : cfg) (s : st) : Prop := mkInv {
   i_gct : gctaken s = clo_gct (clo s);
   i_nopass : clo_started (clo s) = true -> is_passed (hold s) = false /\ is_gpassed (g s) = false;
   i_noorphan : clo_started (clo s) = true -> w_past_default (w s) = true -> wch s = 0;
+  i_dnopass : drp_started (drp s) = true -> is_passed (hold s) = false /\ is_gpassed (g s) = false;
+  i_dnoorphan : drp_pastdrain (drp s) = true -> wch s = 0;
   i_rd : markalive s = false -> rdwait s = 0;
   i_stale : stale s = true -> markalive s = false
 }.
@@ -230,9 +235,9 @@ Proof.
   all: (constructor; fin).
 Qed.
 
-Lemma inv_step_E_drop : forall c s s', cfg_ok c -> inv c s -> step true c s (E_drop) = Some s' -> inv c s'.
+Lemma inv_step_E_drop : forall c s s' b, cfg_ok c -> inv c s -> step true c s (E_drop b) = Some s' -> inv c s'.
 Proof.
-  intros c s s' Hc Hi Hs. prep c s Hc Hi Hs.
+  intros c s s' b Hc Hi Hs. prep c s Hc Hi Hs.
   all: (constructor; fin).
 Qed.
 
@@ -530,6 +535,18 @@ Proof.
   all: (constructor; fin).
 Qed.
 
+Lemma inv_step_D_view : forall c s s', cfg_ok c -> inv c s -> step true c s (D_view) = Some s' -> inv c s'.
+Proof.
+  intros c s s' Hc Hi Hs. prep c s Hc Hi Hs.
+  all: (constructor; fin).
+Qed.
+
+Lemma inv_step_D_noview : forall c s s', cfg_ok c -> inv c s -> step true c s (D_noview) = Some s' -> inv c s'.
+Proof.
+  intros c s s' Hc Hi Hs. prep c s Hc Hi Hs.
+  all: (constructor; fin).
+Qed.
+
 Lemma inv_step_D_flushmt : forall c s s', cfg_ok c -> inv c s -> step true c s (D_flushmt) = Some s' -> inv c s'.
 Proof.
   intros c s s' Hc Hi Hs. prep c s Hc Hi Hs.
@@ -622,6 +639,8 @@ Proof.
   - eapply inv_step_D_default; eassumption.
   - eapply inv_step_D_stopf; eassumption.
   - eapply inv_step_D_waitf; eassumption.
+  - eapply inv_step_D_view; eassumption.
+  - eapply inv_step_D_noview; eassumption.
   - eapply inv_step_D_flushmt; eassumption.
   - eapply inv_step_D_skipmt; eassumption.
   - eapply inv_step_D_stopc; eassumption.
